@@ -641,7 +641,8 @@ class ConstEval:
         ev = lambda n: self.eval(n, mod, cls, env)
         f = node.func
         if node.keywords and not (isinstance(f, ast.Name) and f.id in ('sorted', 'dict')) \
-                and not (isinstance(f, ast.Name) and f.id not in env and getattr(self.prog.resolve(mod, f.id), 'kind', None) in ('def', 'class')):
+                and not (isinstance(f, ast.Name) and f.id not in env and getattr(self.prog.resolve(mod, f.id), 'kind', None) in ('def', 'class')) \
+                and not isinstance(f, ast.Attribute):
             raise NotConst('keyword call')
         if isinstance(f, ast.Name) and f.id == 'isinstance' and f.id not in env and len(node.args) == 2 and not node.keywords:
             types = {'int': int, 'str': str, 'bool': bool, 'float': float, 'list': list, 'tuple': tuple, 'set': set, 'dict': dict,
@@ -720,6 +721,16 @@ class ConstEval:
                 except Exception as e:
                     raise NotConst(f'maketrans failed: {e}')
             base = ev(f.value)
+            if isinstance(base, Instance):
+                # a method of a value object: interpreted with the object as receiver (it may fill only what it creates itself)
+                m_ = self.prog.find_method(base.ci, f.attr)
+                if m_ is None or m_.module.generated or m_.decorators:
+                    raise NotConst(f'method {f.attr} of a {base.ci.name} object')
+                if not all(k.arg for k in node.keywords):
+                    raise NotConst('** call')
+                return self._run_function(m_, [base] + [ev(a) for a in node.args], {k.arg: ev(k.value) for k in node.keywords})
+            if node.keywords:
+                raise NotConst('keyword call')
             for t, names in _SAFE_METHODS.items():
                 if isinstance(base, t) and f.attr in names:
                     args = [ev(a) for a in node.args]
